@@ -13,9 +13,32 @@ def add(pid, engine, category, technique, text, note, ref):
 E1_NOTE = ("Real Raft/BufferedRaftLog/RaftMembership/commit-handler code driven by a simulated transport, clock, storage "
            "engine and state machine; bounded by the stated node counts, depth and deviation budget (evidence lists the "
            "bounds completed); assumptions A1-A5 of DESIGN.md section 5.")
-add("C01", "clustermc", "model_checking", "explicit-state exploration of the real handlers (DFS with re-execution, fingerprint dedup, deviation-bounded)",
-    "Every interleaving of timer expiries, vote answers, AppendEntries deliveries, stream breaks, crashes/stops/restarts and one client write in a 3-voter cluster (5 voters in the thorough tier) within the depth/deviation bounds is executed on the real role handlers; an oracle records which node sends AppendEntries or accepts writes in each term.",
-    E1_NOTE, "DESIGN.md section 4 C01")
+E1_TECH = "explicit-state exploration of the real handlers (DFS with re-execution, fingerprint dedup, deviation-bounded)"
+def e1(pid, text):
+    add(pid, "clustermc", "model_checking", E1_TECH, text, E1_NOTE, f"DESIGN.md section 4 {pid}")
+
+e1("C01", "Every interleaving of timer expiries (incl. a timer that becomes due in the middle of a node's event processing), vote answers, AppendEntries deliveries, stream breaks, crashes/stops/restarts and one client write in a 3-voter cluster (5 voters in the thorough tier) within the depth/deviation bounds is executed on the real role handlers; the oracle records which node sends AppendEntries or accepts writes in each term.")
+e1("C02", "All vote/term histories of a 3-voter cluster in which any node may crash (process) or stop gracefully after any event and restart from its persisted image, within the bounds; oracle: no node's granted votes in one term go to two candidates, and no node's term ever decreases, across incarnations.")
+e1("C04", "All reachable cluster states (3 voters, per-request cap 2, pipelined and merged AppendEntries, stream breaks, leader changes, 2 client writes; prefixes with a follower lagging by 4 entries) within the bounds; oracle on every state: pairwise log matching (same index+term => same payload and identical earlier entries) and every single log gap-free and term-monotone.")
+e1("C05", "Same space as C04 plus process/power crashes and restarts of a minority; history variable of every entry a leader committed; oracle: every later-term leader holds it, and no node overwrites or discards a committed entry it held (except below its purge boundary).")
+e1("C06", "3 voters with gated (lagging) state-machine applies, put/CAS/delete/TTL-put commands, within the bounds; oracle from the apply observer: per node incarnation the applied indexes are exactly last_applied+1, +2, ... (no gap, no repeat) and every index carries one command cluster-wide.")
+e1("C07", "Same space as C04 (followers with lagging/stale logs, capped batches, heartbeats carrying commit indexes, merged deliveries); oracle on every follower state: every entry at or below its commit index equals the entry the leader committed at that index.")
+e1("C09", "Same space as C05; oracle at every leader commit-index advance to N: N is of the leader's current term and a majority of the voters in the leader's membership (live logs and crashed nodes' disk images) actually hold the leader's entry N. Complemented by the regression replay of the repaired match_index defect.")
+e1("C14", "Writes with unique values sent to every role (leader, follower, candidate), with back-pressure limit 1 and pairs in one batch, interleaved with elections and step-downs within the bounds; oracle: a value whose request was rejected (not leader / invalid / resource exhausted) is never passed to any node's apply.")
+e1("C29", "Single and paired put/CAS/delete writes against a leader with a gated state machine, interleaved with replication, commits and elections within the bounds; oracle: a success response implies the request's own entry was applied on the answering node and its commit index covers it, and the reported CAS outcome equals the applied one (unique values tie responses to entries).")
+e1("C31", "Same space as C01 with a real leader-change watch registered on every node and sampled after every turn; oracle: per node the notified term never decreases, at most one leader id is ever announced per term cluster-wide.")
+add("C36", "clustermc", "model_checking", "exhaustive differential enumeration (merged vs one-at-a-time) on a real follower node",
+    "All queues of 1..3 AppendEntries over an alphabet of heartbeats, contiguous/overlapping/non-adjacent batches, commit bumps and newer/stale terms, on 3 follower base logs and merge limits 2 and 1000, are processed twice by a real follower (one request per loop turn vs all queued before one turn, i.e. through merge_append_entries); log, commit index and per-sender acknowledgements are compared.",
+    "Real Raft loop body via the verif_turn hook; requests within one term carry non-decreasing commit indexes (one leader's FIFO stream); a merged success may carry a different match point as long as it never over-claims.", "DESIGN.md section 4 C36")
+add("C08", "logmc", "model_checking", "exhaustive input-grid enumeration through the real request-building and follower-append code",
+    "Full grid (leader log length and term pattern, per-peer next index, number of new entries, per-request cap) through the real generate_new_entries + prepare_peer_entries + build_append_request; every request is checked for contiguity and fed to the real follower path on every follower log of the family (matching prefixes, stale-term divergence at every index); oracle: follower log stays gap-free and keeps every agreeing entry.",
+    "Real ReplicationHandler and BufferedRaftLog over the in-memory store; bounded grid listed in the evidence.", "DESIGN.md section 4 C08")
+add("C19", "logmc", "model_checking", "breadth-first enumeration of all operation sequences on the real BufferedRaftLog against a plain reference log",
+    "All sequences (depth 6 quick / 8 thorough) of leader appends (through generate_new_entries), conflict-aware follower appends (matching, overlapping, conflicting, prev=0, non-matching prev), purges, resets and restarts over indexes <= 6 and terms <= 3; after every operation every query (first/last ids, last_log_id, entry, entry_term, first/last index of a term, all range reads, append result) is compared with a plain Vec-based log.",
+    "Real BufferedRaftLog with its IO task run locally to quiescence; in-memory ideal store; state = (reference log, allocation cursor).", "DESIGN.md section 4 C19")
+add("C22", "smmc", "model_checking", "exhaustive (state, chunk) enumeration on the real File and RocksDB state machines against the reference semantics",
+    "From each of the 16 key-value states over keys {a,b} x values {absent,'',x,y}, every chunk of up to 2 (quick) / 3 (thorough) commands (puts, deletes, CAS with every expected value) is applied as one batch to both real engines and compared with the sequential reference: success flags, get, get_multi (39 key lists), scan_prefix, plus a 64-subset sweep over 0xFF prefix-boundary keys; by induction over the state this covers every sequence and every chunking.",
+    "State-machine behaviour depends only on the key-value contents; real engines in a scratch tmpfs directory.", "DESIGN.md section 4 C22")
 
 NOT_BUILT = "check not built yet in this session (work in progress; see DESIGN.md section 10 build order)"
 
